@@ -46,21 +46,24 @@ TIE = ("T (AST -> Lean for match/prematch/_matches_*/registry loops/Selector.che
        "documented selector notations x a resource pool, and on real process_resource_event cycles (incl. a carried "
        "remaining_patch; invoked handlers observed by their `param`); _deduplicated's loop and Selector.__post_init__'s "
        "notation parsing are tied by D only")
+STRENGTH = "partial"   # see LEVEL_TEXT: several clauses hold only under named guards (= open findings) or rest on the tie
 THEOREMS = [("Kopf.Props.C15", "Kopf.C15." + n) for n in (
-    "match_eq_doc_partial", "match_eq_doc_update", "match_eq_doc_nonchanging",
+    "match_eq_doc_partial", "match_eq_doc_update_partial", "match_eq_doc_nonchanging_partial",
     "doc_gap_old_only_witness", "doc_gap_callback_token_witness", "doc_gap_token_literal_witness",
     "matchesMetadata_iff", "matchesLabels_iff", "dedup_nodup", "dedup_first_kept", "dedup_sublist", "dedup_ids_same",
-    "prematch_of_match", "selected_iff", "selected_sound", "selected_once",
-    "selector_check_iff_partial", "selector_check_iff_named", "resource_criterion_doc", "selector_gap_events_k8s_witness",
+    "dedup_function_once_partial", "bound_method_twice_witness",
+    "selected_iff", "selected_sound",
+    "selector_check_iff_partial", "resource_criterion_doc_partial", "selector_gap_events_k8s_witness",
     "stealth_exact", "stealth_total_partial", "stealth_partial", "stealth_carried_witness", "stealth_blocked_witness",
+    "stealth_touch_witness",
 )] + [("Kopf.Props.C15_Invoked", "Kopf.C15." + n) for n in (
-    "selected_sub_owned", "invoked_sound", "invoked_doc", "unmatched_never_invoked",
+    "invoked_sound", "invoked_doc_partial", "unmatched_never_invoked", "matching_due_invoked", "matching_invoked_fresh",
 )]
 TIE_THEOREMS = [("Kopf.Tie.C15", "Kopf.C15.Tie." + n) for n in (
     "match_eq", "prematch_eq", "resource_eq", "subresource_eq", "subresource_nonwebhook", "when_eq", "labels_eq",
     "annotations_eq", "metadata_step_eq", "field_values_eq", "values_eq", "change_eq", "old_side_eq", "new_side_eq",
     "sides_src_eq", "field_changes_eq", "iter_plain_eq", "requires_finalizer_eq", "dedup_key_eq", "blind_eq",
-    "finalizer_decision_eq", "release_eq", "early_exit_eq",
+    "finalizer_decision_eq", "release_eq", "early_exit_eq", "iter_changing_eq", "resumed_filter_eq", "apply_touch_eq",
     "selector_parts_eq", "selector_version_eq", "selector_any_eq", "selector_fn_eq", "selector_check_eq",
 )]
 RULE = ("handler declaration = labels x annotations criterion in {none, 'x', 'y', PRESENT, ABSENT, callback(is 'x')} x "
@@ -103,7 +106,12 @@ ASSUMPTIONS = ["values are JSON (strings, integers, booleans, null, lists, objec
 
 FINDING_OLD = {"site": "registries._matches_field_values", "deviation": "old_counts",
                "shape": "non-update changing handler: value= satisfied by the old state only (e.g. on.create value=ABSENT always holds)"}
-FINDING_BOTH = {"site": "registries.match", "deviation": "old_counts+cb_token"}
+FINDING_CARRIED = {"site": "processing.process_resource_event", "shape": "carried patch re-sent",
+                   "what": "a handler's transformation carried over from a rejected JSON-patch is sent to an object that matches nothing any more"}
+FINDING_TOUCH = {"site": "application.apply", "shape": "touch-dummy on an unmatched object",
+                 "what": "while a no-longer-matching daemon/timer is exiting, the unmatched finalizer-free object gets (and keeps) the touch-dummy annotation"}
+FINDING_BOUND = {"site": "registries._deduplicated", "shape": "bound method selected twice",
+                 "what": "a bound method registered twice under one id is selected (and invoked) twice: the key is id(fn), a bound method is a new object per access"}
 FINDING_TOKEN = {"site": "registries._matches_field_values/_matches_field_changes", "deviation": "cb_token",
                  "shape": "field value/old/new callback receives the private _UNSET.token, not None, for an absent field"}
 
@@ -225,6 +233,18 @@ RELEASE_VOCAB = _vocab({
     "finalizers.is_deletion_blocked(body=body, finalizer=finalizer)": "a.blocked",
     "list(spawning_delays) + list(changing_delays)": "a.delays",
 })
+CHG_VOCAB = _vocab({
+    "handler.id not in excluded": "(!a.excluded)",
+    "handler.reason is None": "a.reasonNone",
+    "handler.reason == cause.reason": "a.reasonEq",
+    "handler.initial": "a.hInitial",
+    "cause.initial": "a.cInitial",
+    "cause.deleted": "a.cDeleted",
+    "handler.deleted": "a.hDeleted",
+    "match(handler=handler, cause=cause)": "a.matched",
+})
+
+
 def _opt_vocab(field: str, test: str) -> dict[str, str]:
     return _vocab({f"self.{field} is None": "a.isNone", test: "a.holds"})
 
@@ -529,6 +549,74 @@ def extract(ctx: Ctx) -> None:
     if n_app != 3:
         raise ExtractError(f"process_resource_causes: {n_app} patch.fns.append sites (expected 3)")
 
+    # ChangingRegistry.iter_handlers: excluded → reason → skip chain → match (incl. /repo 345a874)
+    it = pyextract.find_def(rtree, "ChangingRegistry.iter_handlers")
+    ibody = pyextract.body_without_docstring(it)
+    if len(ibody) != 1 or not isinstance(ibody[0], ast.For) or pyextract.norm(ibody[0].iter) != "self._handlers" \
+            or pyextract.norm(ibody[0].target) != "handler" or ibody[0].orelse:
+        raise ExtractError("ChangingRegistry.iter_handlers is no longer a single loop over self._handlers")
+    ctr = pyextract.BoolTranslator(CHG_VOCAB)
+    conds, level = [], ibody[0].body
+    for _ in range(2):
+        if len(level) != 1 or not isinstance(level[0], ast.If) or level[0].orelse:
+            raise ExtractError("ChangingRegistry.iter_handlers: expected the excluded / reason guards")
+        conds.append(ctr.tr(level[0].test))
+        level = level[0].body
+
+    def _chg_result(stmts: list[ast.stmt]) -> str | None:
+        t = [pyextract.norm(x) for x in stmts]
+        return "false" if t == ["pass"] else ("true" if t == ["yield handler"] else None)
+    chain = pyextract.if_chain(level, ctr, _chg_result, ())
+    emit("selChangingCore", "ChgAtoms", f"({conds[0]} && ({conds[1]} &&\n    ({pyextract.chain_to_lean(chain, default='false')})))")
+
+    # processing.process_changing_cause: the resumed-handlers filter on cause_handlers (/repo 6c4463d)
+    ptree0 = pyextract.parse_file(ctx.repo / "kopf/_core/reactor/processing.py")
+    pcc = pyextract.find_def(ptree0, "process_changing_cause")
+    assigns = [n for n in ast.walk(pcc) if isinstance(n, ast.Assign) and pyextract.norm(n.targets[0]) == "cause_handlers"]
+    if len(assigns) != 2 or pyextract.norm(assigns[0].value) != "resource_registry.get_handlers(cause=cause)":
+        raise ExtractError("process_changing_cause: cause_handlers is no longer get_handlers(cause) followed by one filter")
+    comp = assigns[1].value
+    if not (isinstance(comp, ast.ListComp) and pyextract.norm(comp.elt) == "handler" and len(comp.generators) == 1
+            and pyextract.norm(comp.generators[0].iter) == "cause_handlers" and len(comp.generators[0].ifs) == 1):
+        raise ExtractError("process_changing_cause: the filter on cause_handlers changed shape")
+    emit("resumedKeepCore", "ResumedAtoms", pyextract.BoolTranslator(_vocab({
+        "handler.initial": "a.initial", "handler.id in memory.resumed_handlers": "a.inResumed"})).tr(comp.generators[0].ifs[0]))
+
+    # application.apply: the sleep-and-touch decision after the patch was sent
+    atree = pyextract.parse_file(ctx.repo / "kopf/_core/actions/application.py")
+    ap = pyextract.find_def(atree, "apply")
+    abody = pyextract.body_without_docstring(ap)
+    if pyextract.norm(abody[0]) != "delay = min(delays) if delays else None":
+        raise ExtractError("application.apply: `delay = min(delays) if delays else None` is no longer the first statement")
+    top = [x for x in abody if isinstance(x, ast.If) and pyextract.norm(x.test) == "delay and changed"]
+    if len(top) != 1 or len(top[0].orelse) != 1 or not isinstance(top[0].orelse[0], ast.If) \
+            or pyextract.norm(top[0].orelse[0].test) != "delay is not None":
+        raise ExtractError("application.apply: the `delay and changed` / `delay is not None` decision changed shape")
+    if any(isinstance(n, ast.Call) and pyextract.norm(n.func) == "patch_and_check" for n in ast.walk(top[0].body[0])) or len(top[0].body) != 1:
+        raise ExtractError("application.apply: the skipped-sleep branch does something")
+    inner = top[0].orelse[0]
+    last = inner.body[-1]
+    if not (isinstance(last, ast.If) and pyextract.norm(last.test) == "changed and (not delay)" and [pyextract.norm(x) for x in last.body] == ["pass"]
+            and len(last.orelse) == 1 and isinstance(last.orelse[0], ast.If)
+            and pyextract.norm(last.orelse[0].test) == "unslept_delay is not None"):
+        raise ExtractError("application.apply: the touch decision after the sleep changed shape")
+    touch_block, intr_block = last.orelse[0].orelse, last.orelse[0].body
+
+    def _writes(stmts: list[ast.stmt]) -> int:
+        return sum(1 for st in stmts for n in ast.walk(st) if isinstance(n, ast.Call) and pyextract.norm(n.func) in
+                   ("patch_and_check", "settings.persistence.progress_storage.touch"))
+    if _writes(touch_block) != 2 or _writes(intr_block) != 0 or _writes(inner.body[:-1]) != 0:
+        raise ExtractError("application.apply: the touch is no longer written exactly in the final else-branch")
+    rest_else = inner.orelse
+    if _writes(rest_else) != 0:
+        raise ExtractError("application.apply: the no-delay branch writes")
+    emit("applyTouchCore", "ApplyAtoms",
+         "if (a.delayTruthy && a.changed) then false else\n    if a.delayNotNone then "
+         "(if (a.changed && (!a.delayTruthy)) then false else if a.interrupted then false else true) else\n    false")
+    ch = [x for x in abody if isinstance(x, ast.Assign) and pyextract.norm(x.targets[0]) == "changed"]
+    if len(ch) != 1 or pyextract.norm(ch[0].value) != "bool(patch) and (resource_version is None or resource_version != seen_version)":
+        raise ExtractError("application.apply: `changed` is no longer `bool(patch) and (the version moved)`")
+
     # references.Selector.check: a conjunction of nine parts, each over its own atoms
     ftree = pyextract.parse_file(ctx.repo / "kopf/_cogs/structs/references.py")
     chk = _single_return(pyextract.find_def(ftree, "Selector.check"))
@@ -557,7 +645,7 @@ EXT_MCRITS = CRITS[1:] + [{"cb": "is_none"}, {"cb": "not_none"}, {"cb": "nonempt
 FALSY: list = ["", 0, False, [], {}]         # falsy but present values / meaningful criteria
 FCRITS = [None, {"v": "x"}, "P", "A", {"cb": "is_x"}, {"cb": "truthy"}] + [{"v": f} for f in FALSY]
 MCRITS_E = CRITS + [{"v": ""}]
-LEAN_H = ("fn", "id", "ch", "sel", "sub", "l", "a", "w", "f", "v", "o", "n", "fnc", "rf", "r", "i", "d")
+LEAN_H = ("fn", "func", "id", "ch", "sel", "sub", "l", "a", "w", "f", "v", "o", "n", "fnc", "rf", "r", "i", "d")
 LEAN_C = ("ch", "l", "a", "b", "o", "n", "r", "i", "m")
 
 META_CBS: dict[str, Callable[..., bool]] = {
@@ -590,10 +678,12 @@ def when_false(**_: Any) -> bool:
 
 def hspec(cls: str = "changing", *, fn: int = 0, id: str = "h", sel: str | None = PLURAL, l: Any = None, a: Any = None,
           w: Any = None, f: Any = None, v: Any = None, o: Any = None, n: Any = None, fnc: Any = None, rf: Any = None,
-          r: str | None = None, i: Any = None, d: Any = None) -> dict:
+          r: str | None = None, i: Any = None, d: Any = None, func: int | None = None, bound: int | None = None) -> dict:
     """A handler declaration. `sel`: what the harness itself knows about the selector (None = no
-    selector, a name = matches iff it is the resource's plural)."""
-    return {"_cls": cls, "fn": fn, "id": id, "ch": cls == "changing", "_sel": sel,
+    selector, a name = matches iff it is the resource's plural). `fn`: which object is registered,
+    `func`: which function it is (differs from `fn` only for `bound`: method k of one instance,
+    accessed anew -- a fresh bound-method object -- for every registration)."""
+    return {"_cls": cls, "fn": fn, "func": fn if func is None else func, "_bound": bound, "id": id, "ch": cls == "changing", "_sel": sel,
             "sel": None if sel is None else sel == PLURAL, "sub": True, "l": l, "a": a, "w": w, "f": f,
             "v": v, "o": o, "n": n, "_fnc": fnc, "fnc": bool(fnc), "_rf": rf, "rf": bool(rf), "r": r,
             "_i": i, "i": bool(i), "_d": d, "d": bool(d)}
@@ -843,16 +933,20 @@ def classify(h: dict, st: dict, got: bool, fn: Callable[..., bool | None], site:
         if fn(h, st, dev) == got:
             return sig
     if fn(h, st, frozenset({"old_counts", "cb_token"})) == got:
-        return FINDING_BOTH
+        return FINDING_OLD      # needs both deviations: not a finding of its own, attributed to C15-F1
     return {"site": site, "shape": "selected although a declared criterion fails" if got else "not selected although all declared criteria hold"}
 
 
 def doc_gate(h: dict, st: dict) -> bool:
     """cause kind (C05's subject, restated from the handler kinds): a handler bound to a cause kind
-    runs only for it; resume handlers only on first sight, on deleting objects only when opted in."""
+    runs only for it; resume handlers only on first sight, on deleting objects only when opted in;
+    field handlers (no kind of their own, not resuming) are for updates: "the field handler is
+    effective only when the object is updated" -- never on an object marked for deletion."""
     if h["r"] is not None and h["r"] != st["r"]:
         return False
     if h["i"] and (not st["i"] or (st["m"] and not h["d"])):
+        return False
+    if h["r"] is None and not h["i"] and st["m"]:
         return False
     return True
 
@@ -878,6 +972,25 @@ class Env:
         logging.getLogger("kopf").setLevel(logging.CRITICAL + 1)
         self.fns = [self._mkfn(i) for i in range(6)]
         self.calls: list[Any] = []
+        env = self
+
+        class Ops:
+            """an instance whose methods are registered as handlers: `ops.m0` is a NEW object per access"""
+            async def m0(self, **kw: Any) -> None:
+                env.calls.append((50, kw.get("param")))
+
+            async def m1(self, **kw: Any) -> None:
+                env.calls.append((51, kw.get("param")))
+        self.ops = Ops()
+
+        async def temp_fn(**kw: Any) -> None:
+            env.calls.append(("temp", kw.get("param")))
+            raise kopf.TemporaryError("come back later", delay=0.001)
+        temp_fn.__name__ = temp_fn.__qualname__ = "temp_fn"
+        self.temp_fn = temp_fn
+
+    def fn_of(self, h: dict) -> Any:
+        return getattr(self.ops, f"m{h['_bound']}") if h.get("_bound") is not None else self.fns[h["fn"] % len(self.fns)]
 
     def _mkfn(self, i: int) -> Callable[..., Any]:
         async def fn(**kw: Any) -> None:
@@ -922,7 +1035,7 @@ class Env:
     # ---- handlers through the dataclasses ----------------------------------------------------
     def handler(self, h: dict) -> Any:
         H = self.handlers
-        common = dict(fn=self.fns[h["fn"]], id=h["id"], param=None, errors=None, timeout=None, retries=None, backoff=None,
+        common = dict(fn=self.fn_of(h), id=h["id"], param=None, errors=None, timeout=None, retries=None, backoff=None,
                       selector=self.selector(h["_sel"]), labels=self.pattern(h["l"]), annotations=self.pattern(h["a"]),
                       when=self.when(h["w"]), field=None if h["f"] is None else tuple(h["f"]), value=self.vcrit(h["v"]))
         if h["_cls"] == "changing":
@@ -938,7 +1051,7 @@ class Env:
         raise ValueError(h["_cls"])
 
     # ---- handlers through the public decorators ------------------------------------------------
-    def decorate(self, registry: Any, h: dict, kind: str, *, explicit_id: bool, param: Any = None) -> Any:
+    def decorate(self, registry: Any, h: dict, kind: str, *, explicit_id: bool, param: Any = None, fn_override: Any = None) -> Any:
         """register through kopf.on.<kind>; returns the real handler object"""
         on = self.kopf.on
         kw: dict[str, Any] = dict(registry=registry, labels=self.pattern(h["l"]), annotations=self.pattern(h["a"]),
@@ -959,7 +1072,7 @@ class Env:
         reg = {"event": registry._watching, "index": registry._indexing, "timer": registry._spawning,
                "daemon": registry._spawning}.get(kind, registry._changing)
         before = len(reg._handlers)
-        getattr(on, kind)(h["_sel"], **kw)(self.fns[h["fn"]])
+        getattr(on, kind)(h["_sel"], **kw)(fn_override or self.fn_of(h))
         assert len(reg._handlers) == before + 1
         return reg._handlers[-1]
 
@@ -1286,6 +1399,7 @@ def random_decl(rng: random.Random, cls: str) -> tuple[dict, str]:
     w = rng.choice([None, None, None, True, True, False])
     sel = rng.choice([PLURAL] * 9 + ["others"])
     fn = rng.randrange(3)
+    bound = rng.randrange(2) if rng.random() < 0.15 else None
     hid = rng.choice(["a", "b", f"fn{fn}", f"fn{fn}"])
     if cls == "changing":
         kind = rng.choice(["create", "update", "delete", "resume", "field"])
@@ -1300,11 +1414,11 @@ def random_decl(rng: random.Random, cls: str) -> tuple[dict, str]:
         rf = (rng.random() < 0.7) if kind == "delete" else None
         d = rng.choice([None, False, True]) if kind == "resume" else None
         return hspec("changing", fn=fn, id=hid, sel=sel, l=l, a=a, w=w, f=f, v=v, o=o, n=n, fnc=k["fnc"], rf=rf,
-                     r=k["r"], i=k["i"] or None, d=d), kind
+                     r=k["r"], i=k["i"] or None, d=d, bound=bound), kind
     kind = {"watching": "event", "indexing": "index", "spawning": rng.choice(["timer", "daemon"])}[cls]
     f = FIELD if rng.random() < 0.4 else None
     return hspec(cls, fn=fn, id=hid, sel=sel, l=l, a=a, w=w, f=f, v=rng.choice(CRITS) if f else None,
-                 rf=True if cls == "spawning" else None), kind
+                 rf=True if cls == "spawning" else None, bound=bound), kind
 
 
 def check_decorated(env: Env, rec: Rec, real: Any, h: dict, kind: str) -> None:
@@ -1323,10 +1437,12 @@ def run_select_case(env: Env, rec: Rec, case: dict, driver_reqs: list, pending: 
     sub = {"changing": registry._changing, "watching": registry._watching, "spawning": registry._spawning,
            "indexing": registry._indexing}[cls]
     hs = []
-    for h, kind, explicit in case["handlers"]:
+    for n_, (h, kind, explicit) in enumerate(case["handlers"]):
         h = dict(h)
         real = env.decorate(registry, h, kind, explicit_id=explicit)
         h["id"] = str(real.id)         # generated ids (fn name + field suffix) are read off the real handler
+        if h.get("_bound") is not None:   # a fresh bound-method object per registration; one function
+            h["fn"], h["func"] = 1000 + n_, 50 + h["_bound"]
         check_decorated(env, rec, real, h, kind)
         hs.append(h)
     st = case["state"]
@@ -1335,21 +1451,24 @@ def run_select_case(env: Env, rec: Rec, case: dict, driver_reqs: list, pending: 
     got = sub.get_handlers(cause=cause, excluded=excluded)
     pos = {id(x): i for i, x in enumerate(sub._handlers)}
     got_idx = [pos[id(x)] for x in got]
-    got_keys = [(hs[i]["fn"], hs[i]["id"]) for i in got_idx]
+    got_keys = [(hs[i]["func"], hs[i]["id"]) for i in got_idx]     # the FUNCTION and the id (the property's clause)
     rec.evaluations += 1
     rec.count("registry class", cls)
     rec.count("selected per get_handlers", len(got_idx))
-    dup_regs = len(hs) - len({(h["fn"], h["id"]) for h in hs})
-    rec.count("duplicate (fn,id) registrations", dup_regs)
+    dup_regs = len(hs) - len({(h["func"], h["id"]) for h in hs})
+    rec.count("duplicate (function,id) registrations", dup_regs)
+    rec.count("bound-method registrations", sum(1 for h in hs if h.get("_bound") is not None))
     replay = {"kind": "select", "case": case, "impl": got_idx}
     # oracle: invoked once; exactly the handlers whose declared criteria (and cause kind) hold
     if len(set(got_keys)) != len(got_keys):
-        rec.oracle_fail("one function registered under one id was selected twice", replay,
-                        {"site": "registries._deduplicated", "shape": "duplicate (fn, id) in get_handlers"})
+        dups = {k for k in got_keys if got_keys.count(k) > 1}
+        bound_only = all(hs[i].get("_bound") is not None for i in got_idx if (hs[i]["func"], hs[i]["id"]) in dups)
+        rec.oracle_fail(f"one function registered under one id was selected twice: {sorted(dups)}", replay,
+                        FINDING_BOUND if bound_only else {"site": "registries._deduplicated", "shape": "duplicate (function, id) in get_handlers"})
     verdicts = [doc_match(h, st) for h in hs]
     if all(v is not None for v in verdicts):
         def want(dev: frozenset) -> set:
-            return {(h["fn"], h["id"]) for h in hs if h["id"] not in excluded
+            return {(h["func"], h["id"]) for h in hs if h["id"] not in excluded
                     and (cls != "changing" or doc_gate(h, st)) and doc_match(h, st, dev)}
         if set(got_keys) != want(frozenset()):
             sig = next((s for dev, s in DEVIATIONS if set(got_keys) == want(dev)), None) or \
@@ -1382,7 +1501,7 @@ def random_select_case(rng: random.Random) -> dict:
             # register an already registered function again: same id (other criteria) or another id
             h0, k0, e0 = rng.choice(handlers)
             h, kind = random_decl(rng, cls)
-            h["fn"] = h0["fn"]
+            h["fn"], h["func"], h["_bound"] = h0["fn"], h0["func"], h0["_bound"]
             if rng.random() < 0.7:
                 h["id"] = h0["id"]
                 h["f"], h["v"], h["o"], h["n"] = (h0["f"], h0["v"], h0["o"], h0["n"]) if kind == k0 else (h["f"], h["v"], h["o"], h["n"])
@@ -1402,7 +1521,7 @@ def random_select_case(rng: random.Random) -> dict:
     else:
         st = state(cls, labels={} if lv is None else {LK: lv}, annotations={} if av is None else {AK: av},
                    body_extra={"spec": spec_of(nv)})
-    ids_ = sorted({(h["id"] if e else f"fn{h['fn']}") + ("/" + ".".join(h["f"]) if h["f"] else "") for h, _, e in handlers})
+    ids_ = sorted({(h["id"] if e else (f"Env.__init__.<locals>.Ops.m{h['_bound']}" if h.get("_bound") is not None else f"fn{h['fn']}")) + ("/" + ".".join(h["f"]) if h["f"] else "") for h, _, e in handlers})
     excluded = [i for i in ids_ if rng.random() < 0.25] if cls != "changing" or rng.random() < 0.3 else []
     return {"cls": cls, "handlers": handlers, "state": st, "excluded": excluded}
 
@@ -1428,8 +1547,6 @@ def run_dedup_case(env: Env, rec: Rec, keys: list[list], driver_reqs: list, pend
 # =============================================================================================
 # (D) the resource selector: references.Selector(<notation>).check(resource)
 # =============================================================================================
-FINDING_EVK8S = {"site": "references.Selector.check", "deviation": "events_k8s",
-                 "shape": "EVERYTHING / callable selectors also skip events.k8s.io events (only core v1 events are documented)"}
 SEL_RESOURCES = [
     dict(group="kopf.dev", version="v1", plural="kopfexamples", kind="KopfExample", singular="kopfexample", shortcuts=["kex"], categories=["all", "kopf"], preferred=True),
     dict(group="kopf.dev", version="v1beta1", plural="kopfexamples", kind="KopfExample", singular="kopfexample", shortcuts=["kex"], categories=["all", "kopf"], preferred=False),
@@ -1551,9 +1668,14 @@ def run_selectors(env: Env, rec: Rec, reqs: list, pending: list) -> None:
             rec.nontrivial.add(f"sel|{leanio.canon(decl)}|{r['group']}/{r['version']}/{r['plural']}|{int(got)}")
             if "obj" not in decl:
                 want = doc_selector(decl, r)
-                if got != want:
-                    sig = FINDING_EVK8S if doc_selector(decl, r, frozenset({"events_k8s"})) == got else \
-                        {"site": "references.Selector.check", "shape": "selects a resource the documented notation does not" if got else "does not select a resource the documented notation selects"}
+                if got != want and doc_selector(decl, r, frozenset({"events_k8s"})) == got:
+                    # OBSERVATION, not a finding (docs-only): the code's exclusion of the Event kind from
+                    # EVERYTHING / callable selectors also covers its newer API group events.k8s.io, which
+                    # docs/resources.rst does not mention (Lean: selector_gap_events_k8s_witness;
+                    # proposals/fix-C15F4.diff is a docs patch). Counted, reported in the evidence.
+                    rec.count("observations", "Selector: events.k8s.io events skipped by EVERYTHING/callable (docs name core v1 only)")
+                elif got != want:
+                    sig = {"site": "references.Selector.check", "shape": "selects a resource the documented notation does not" if got else "does not select a resource the documented notation selects"}
                     rec.oracle_fail(f"Selector{tuple(decl['args'])}{decl['kw']}.check({r['group']}/{r['version']}/{r['plural']}) = {got}, documented: {want}",
                                     {"kind": "selector", "decl": decl, "resource": r, "impl": got}, sig)
             if sel.fn is not None:     # the model's callable is its value on this resource
@@ -1571,17 +1693,27 @@ def carried_user_fn(body: Any) -> None:
     """a handler's JSON-patch transformation (`patch.fns`) left over from a rejected patch"""
 
 
-def random_cycle_case(rng: random.Random) -> dict:
+STEP_KEYS = ("label", "annotation", "field", "stored", "event", "own_finalizer", "foreign_finalizer", "marked", "carried")
+
+
+def _cycle_handlers(rng: random.Random, *, daemons_real: bool) -> list:
     small = [None, {"v": "x"}, "P", "A", {"cb": "is_x"}]
-    hs = []
+    hs: list = []
     for cls, kinds, nmax in (("watching", ["event"], 2), ("changing", ["create", "update", "delete", "resume", "field"], 3),
                              ("spawning", ["timer", "daemon"], 2)):
-        for _ in range(rng.choice([0, 1, 1, nmax] if cls == "changing" else [0, 0, 1, 1, nmax])):
+        if daemons_real:
+            n_h = {"watching": rng.choice([0, 0, 1]), "changing": rng.choice([0, 0, 1, 2]), "spawning": rng.choice([1, 1, 2])}[cls]
+        else:
+            n_h = rng.choice([0, 1, 1, nmax] if cls == "changing" else [0, 0, 1, 1, nmax])
+        for _ in range(n_h):
             kind = rng.choice(kinds)
             mode = rng.random()
             l = pat(LK, rng.choice(small)) if mode < 0.6 else None
             a = pat(AK, rng.choice(small)) if 0.4 < mode < 0.8 else None
-            f = FIELD if kind == "field" or rng.random() < 0.35 else None
+            if daemons_real and cls == "spawning":
+                l, a = pat(LK, rng.choice(["P", "P", {"v": "x"}, {"cb": "is_x"}])), None
+            path = rng.choice([FIELD, FIELD, ["metadata", "labels", LK], ["status", "s"]])
+            f = path if kind == "field" or rng.random() < 0.35 else None
             v = o = n = None
             if f and kind in ("update", "field") and rng.random() < 0.4:
                 o, n = rng.choice(CRITS + FCRITS[6:]), rng.choice(CRITS + FCRITS[6:])
@@ -1589,47 +1721,118 @@ def random_cycle_case(rng: random.Random) -> dict:
                 v = rng.choice(CRITS + FCRITS[6:])
             k = DECL_KIND.get(kind, dict(r=None, fnc=False, i=False))
             rf = True if cls == "spawning" else ((rng.random() < 0.7) if kind == "delete" else None)
-            hs.append((hspec(cls, fn=len(hs) % 6, id=f"h{len(hs)}", sel=rng.choice([PLURAL] * 6 + ["others"]), l=l, a=a,
-                             w=rng.choice([None, None, None, True, False]), f=f, v=v, o=o, n=n, fnc=k["fnc"], rf=rf, r=k["r"],
-                             i=k["i"] or None, d=rng.choice([None, True]) if kind == "resume" else None), kind))
+            h = hspec(cls, fn=len(hs) % 6, id=f"h{len(hs)}", sel=rng.choice([PLURAL] * 6 + ["others"]), l=l, a=a,
+                      w=rng.choice([None, None, None, True, False]), f=f, v=v, o=o, n=n, fnc=k["fnc"], rf=rf, r=k["r"],
+                      i=k["i"] or None, d=rng.choice([None, True]) if kind == "resume" else None)
+            if cls == "changing" and rng.random() < 0.15:
+                h["_behave"] = "temp"            # raises TemporaryError(delay): the handling returns delays
+            if cls == "spawning" and daemons_real:
+                h["_behave"] = rng.choice(["ignores", "ignores", "obeys"])
+                h["_sel"], h["sel"], h["w"] = PLURAL, True, None
+            hs.append((h, kind))
+    return hs
+
+
+def random_cycle_case(rng: random.Random) -> dict:
+    hs = _cycle_handlers(rng, daemons_real=False)
     lv, av = rng.choice(VALS + [""]), rng.choice(VALS + [""])
     nv, ov = rng.choice(VALS + FALSY), rng.choice(VALS + [NOOLD, NOOLD] + FALSY)
+    resumed = [h["id"] for h, kind in hs if kind == "resume" and rng.random() < 0.4]
     return {"handlers": hs, "label": lv, "annotation": av, "field": nv, "stored": ov,
-            "event": rng.choice(["ADDED", "MODIFIED", "MODIFIED", None, "DELETED"]),
+            "event": rng.choice(["ADDED", "MODIFIED", "MODIFIED", None, None, "DELETED"]),
             "own_finalizer": rng.random() < 0.3, "foreign_finalizer": rng.random() < 0.2,
-            "marked": rng.random() < 0.25, "stopped": [], "carried": rng.random() < 0.2}
+            "marked": rng.random() < 0.25, "stopped": [], "carried": rng.random() < 0.2, "resumed": resumed}
+
+
+def random_sequence_case(rng: random.Random) -> dict:
+    """several consecutive events for one object on the same in-memory records, with REAL daemons and
+    timers (spawned, re-matched, stopped by kopf itself): the label comes and goes, the own finalizer
+    follows what kopf itself queued in the previous cycle"""
+    hs = _cycle_handlers(rng, daemons_real=True)
+    steps = []
+    label = rng.choice(["x", "x", "v", None])
+    for k in range(rng.randint(3, 6)):
+        if k and rng.random() < 0.45:
+            label = None if label is not None else rng.choice(["x", "v"])
+        steps.append({"label": label, "annotation": rng.choice([None, None, "x"]), "field": rng.choice(VALS), "stored": rng.choice([NOOLD, "x", None]),
+                      "event": "ADDED" if k == 0 else rng.choice(["MODIFIED", "MODIFIED", None]), "own_finalizer": "follow",
+                      "foreign_finalizer": False, "marked": k > 2 and rng.random() < 0.15, "carried": False,
+                      "wait": rng.choice([0, 0, 0.08])})
+    return {"handlers": hs, "steps": steps, "real_daemons": True, "stopped": []}
+
+
+async def _dmn_ignores(**_: Any) -> None:
+    import asyncio
+    await asyncio.sleep(0.06)           # a daemon that does not look at `stopped` for a while
+
+
+async def _dmn_obeys(stopped: Any, **_: Any) -> None:
+    await stopped.wait()
 
 
 async def run_cycle_case(env: Env, rec: Rec, case: dict, driver_reqs: list, pending: list) -> None:
+    """one registry, one object, one or several consecutive events on the same ResourceMemories"""
     import asyncio
     P, A, D = env.processing, env.application, env.daemons
     settings = env.configuration.OperatorSettings()
     settings.posting.enabled = False
+    settings.background.cancellation_polling = 0.02
+    settings.background.instant_exit_timeout = 0.005
     fin = settings.persistence.finalizer
     registry = env.registries.OperatorRegistry()
+    real_daemons = bool(case.get("real_daemons", False))
     hs = []
     for n_, (h, kind) in enumerate(case["handlers"]):
-        real = env.decorate(registry, h, kind, explicit_id=True, param=n_)
+        override = {"temp": env.temp_fn, "ignores": _dmn_ignores, "obeys": _dmn_obeys}.get(h.get("_behave"))
+        real = env.decorate(registry, h, kind, explicit_id=True, param=n_, fn_override=override)
         hs.append(dict(h, id=str(real.id)))
-    meta: dict[str, Any] = {"name": "obj", "namespace": "ns", "uid": "u1", "resourceVersion": "7"}
-    if case["label"] is not None:
-        meta["labels"] = {LK: case["label"]}
-    ann = {}
-    if case["annotation"] is not None:
-        ann[AK] = case["annotation"]
-    if case["stored"] != NOOLD:
-        ann["kopf.zalando.org/last-handled-configuration"] = json.dumps({"spec": spec_of(case["stored"])}) + "\n"
-    if ann:
-        meta["annotations"] = ann
-    fins = (["other.io/f"] if case["foreign_finalizer"] else []) + ([fin] if case["own_finalizer"] else [])
-    if fins:
-        meta["finalizers"] = fins
-    if case["marked"]:
-        meta["deletionTimestamp"] = "2020-01-01T00:00:00Z"
-    body = {"apiVersion": "kopf.dev/v1", "kind": "KopfExample", "metadata": meta, "spec": spec_of(case["field"])}
-    obs: dict[str, Any] = {"spawn": None, "causes": None, "patch": None, "handled": None, "delays": None, "applied": []}
+    by_param = {n_: h for n_, h in enumerate(hs)}
+    steps = case.get("steps") or [{k: case.get(k) for k in STEP_KEYS} | {"resumed": case.get("resumed")}]
+    memories = env.inventory.ResourceMemories()
+    memobase = env.ephemera.Memo()
+    own_fin = False
     orig = (P._detect_causes, P.process_resource_causes, P.process_changing_cause, A.patch_and_check,
             D.spawn_daemons, D.match_daemons, D.pause_daemons, D.stop_daemons)
+    try:
+        for k, step in enumerate(steps):
+            own_fin = own_fin if step["own_finalizer"] == "follow" else bool(step["own_finalizer"])
+            own_fin = await _one_cycle(env, rec, case, k, step, own_fin, hs, by_param, registry, settings, fin, memories, memobase,
+                                       real_daemons, orig, driver_reqs, pending)
+            if step.get("wait"):
+                await asyncio.sleep(step["wait"])
+    finally:
+        (P._detect_causes, P.process_resource_causes, P.process_changing_cause, A.patch_and_check,
+         D.spawn_daemons, D.match_daemons, D.pause_daemons, D.stop_daemons) = orig
+        tasks = [d.task for m in memories.iter_all_memories() for d in m.daemons_memory.running_daemons.values()]
+        for t in tasks:
+            t.cancel()
+        if tasks:
+            await asyncio.gather(*tasks, return_exceptions=True)
+
+
+async def _one_cycle(env: Env, rec: Rec, case: dict, k: int, step: dict, own_fin: bool, hs: list, by_param: dict, registry: Any,
+                     settings: Any, fin: str, memories: Any, memobase: Any, real_daemons: bool, orig: tuple,
+                     driver_reqs: list, pending: list) -> bool:
+    import asyncio
+    P, A, D = env.processing, env.application, env.daemons
+    meta: dict[str, Any] = {"name": "obj", "namespace": "ns", "uid": "u1", "resourceVersion": str(7 + k)}
+    if step["label"] is not None:
+        meta["labels"] = {LK: step["label"]}
+    ann = {}
+    if step["annotation"] is not None:
+        ann[AK] = step["annotation"]
+    if step["stored"] != NOOLD:
+        ann["kopf.zalando.org/last-handled-configuration"] = json.dumps({"spec": spec_of(step["stored"])}) + "\n"
+    if ann:
+        meta["annotations"] = ann
+    fins = (["other.io/f"] if step["foreign_finalizer"] else []) + ([fin] if own_fin else [])
+    if fins:
+        meta["finalizers"] = fins
+    if step["marked"]:
+        meta["deletionTimestamp"] = "2020-01-01T00:00:00Z"
+    body = {"apiVersion": "kopf.dev/v1", "kind": "KopfExample", "metadata": meta, "spec": spec_of(step["field"]), "status": {"s": "x"}}
+    obs: dict[str, Any] = {"spawn": None, "causes": None, "patch": None, "handled": None, "delays": None, "applied": [],
+                           "daemon_delays": [], "handler_delays": []}
 
     def detect(**kw: Any) -> Any:
         obs["causes"] = orig[0](**kw)
@@ -1643,7 +1846,9 @@ async def run_cycle_case(env: Env, rec: Rec, case: dict, driver_reqs: list, pend
 
     async def pcc(**kw: Any) -> Any:
         obs["handled"] = True
-        return await orig[2](**kw)
+        r = await orig[2](**kw)
+        obs["handler_delays"] = list(r)
+        return r
 
     async def pac(**kw: Any) -> Any:
         obs["applied"].append({"patch": json.loads(json.dumps(dict(kw["patch"]), default=repr)),
@@ -1652,43 +1857,63 @@ async def run_cycle_case(env: Env, rec: Rec, case: dict, driver_reqs: list, pend
 
     async def spawn(**kw: Any) -> Any:
         obs["spawn"] = [str(h.id) for h in kw["handlers"]]
-        return []
+        return list(await orig[4](**kw)) if real_daemons else []
 
-    async def nodelays(**kw: Any) -> Any:
-        return []
+    async def matchd(**kw: Any) -> Any:
+        r = list(await orig[5](**kw)) if real_daemons else []
+        obs["daemon_delays"] += r
+        return r
+
+    async def pause(**kw: Any) -> Any:
+        return list(await orig[6](**kw)) if real_daemons else []
+
+    async def stopd(**kw: Any) -> Any:
+        r = list(await orig[7](**kw)) if real_daemons else []
+        if kw.get("reason") is None or "FILTERS" not in str(kw.get("reason")):   # called directly (deletion), not via match_daemons
+            obs["daemon_delays"] += r
+        return r
     env.calls.clear()
     P._detect_causes, P.process_resource_causes, P.process_changing_cause = detect, prc, pcc
     A.patch_and_check = pac
-    D.spawn_daemons, D.match_daemons, D.pause_daemons, D.stop_daemons = spawn, nodelays, nodelays, nodelays
-    carried = bool(case.get("carried", False))
-    try:
-        memories = env.inventory.ResourceMemories()
-        memobase = env.ephemera.Memo()
+    D.spawn_daemons, D.match_daemons, D.pause_daemons, D.stop_daemons = spawn, matchd, pause, stopd
+    carried = bool(step.get("carried", False))
+    preset = step.get("resumed")
+    mem = None
+    if carried or preset:
+        mem = await memories.recall(body, noticed_by_listing=step["event"] is None, memobase=memobase)
         if carried:   # an earlier cycle's handler transformation whose JSON-patch was rejected (HTTP 422)
-            mem = await memories.recall(body, noticed_by_listing=case["event"] is None, memobase=memobase)
             mem.remaining_patch = env.patches.Patch(fns=[carried_user_fn])
-        await P.process_resource_event(
-            lifecycle=env.lifecycles.all_at_once, indexers=env.indexing.OperatorIndexers(), registry=registry, settings=settings,
-            memories=memories, memobase=memobase, resource=env.resource,
-            raw_event={"type": case["event"], "object": body}, event_queue=asyncio.Queue(), no_throttling=True)
-    finally:
-        (P._detect_causes, P.process_resource_causes, P.process_changing_cause, A.patch_and_check,
-         D.spawn_daemons, D.match_daemons, D.pause_daemons, D.stop_daemons) = orig
+        if preset:    # resuming handlers that already reached a final outcome here (/repo 6c4463d)
+            mem.resumed_handlers.update(preset)
+    known = {m for m in memories.iter_all_memories()}
+    pre_resumed = sorted(next(iter(known)).resumed_handlers) if known else []
+    pre_stopped = sorted(str(x) for x in next(iter(known)).daemons_memory.forever_stopped) if known else []
+    await P.process_resource_event(
+        lifecycle=env.lifecycles.all_at_once, indexers=env.indexing.OperatorIndexers(), registry=registry, settings=settings,
+        memories=memories, memobase=memobase, resource=env.resource,
+        raw_event={"type": step["event"], "object": body}, event_queue=asyncio.Queue(), no_throttling=True)
     patch = obs["patch"]
     fns = [getattr(f, "func", f).__name__ for f in patch.fns]
     patch_dict = json.loads(json.dumps(dict(patch), default=repr))
+    touched = any("touch-dummy" in json.dumps(a["patch"]) and a["patch"].get("metadata", {}).get("annotations", {}).get(
+        "kopf.zalando.org/touch-dummy") is not None for a in obs["applied"][1:])
     called = list(env.calls)
-    by_param = {n_: h for n_, h in enumerate(hs)}
     watch_called = [by_param[p]["id"] for _, p in called if by_param[p]["_cls"] == "watching"]
     changing_called = [by_param[p]["id"] for _, p in called if by_param[p]["_cls"] == "changing"]
+    handled = bool(obs["handled"])
     impl = {"carried": "carried_user_fn" in fns, "watch": sorted(watch_called), "spawn": sorted(obs["spawn"] or []),
             "fins": [{"block_deletion": "fin+", "allow_deletion": "fin-"}.get(f, f) for f in fns if f != "carried_user_fn"],
-            "handle": sorted(changing_called) if obs["handled"] else None}
+            "handle": sorted(changing_called) if handled else None,
+            "touch": touched and not handled}        # (what the handling leaves in the patch is C02's: not compared)
+    lingering, hdelays = bool(obs["daemon_delays"]), bool(obs["handler_delays"])
     rec.evaluations += 1
     cs = obs["causes"]
     rec.count("cycle: changing cause reason", "-" if cs.changing_cause is None else cs.changing_cause.reason.value)
-    rec.count("cycle: writes", "none" if not patch_dict and not fns else ("finalizer" if fns else "") + ("+patch" if patch_dict else ""))
-    replay = {"kind": "cycle", "case": case, "impl": impl, "patch": patch_dict}
+    rec.count("cycle: writes", "none" if not patch_dict and not fns and not touched else
+              "+".join(x for x, on in (("carried", impl["carried"]), ("finalizer", bool(impl["fins"])), ("patch", bool(patch_dict)), ("touch", touched)) if on))
+    rec.count("cycle: residues", f"lingering={int(lingering)} handler-delays={int(hdelays)} resumed={int(bool(pre_resumed))} carried={int(carried)}")
+    rec.count("cycle: daemons", "real" if real_daemons else "stubbed")
+    replay = {"kind": "cycle", "case": case, "step": k, "impl": impl, "patch": patch_dict}
 
     # ---- the stealth clause, from the property: matched by no handler & no own finalizer → untouched
     labels = meta.get("labels", {})
@@ -1700,44 +1925,50 @@ async def run_cycle_case(env: Env, rec: Rec, case: dict, driver_reqs: list, pend
             old = None if c.old is None else json.loads(json.dumps(dict(c.old)))
             new = None if c.new is None else json.loads(json.dumps(dict(c.new)))
             return {"_cls": cls, "ch": True, "l": labels, "a": annotations, "b": body, "o": old, "n": new,
-                    "r": c.reason.value, "i": bool(c.initial), "m": case["marked"]}
+                    "r": c.reason.value, "i": bool(c.initial), "m": step["marked"]}
         return {"_cls": cls, "ch": cls == "changing", "l": labels, "a": annotations, "b": body, "o": None, "n": None,
-                "r": "noop", "i": False, "m": case["marked"]}
+                "r": "noop", "i": False, "m": step["marked"]}
     sts = {cls: st_for(cls) for cls in ("watching", "spawning", "changing")}
     object_level = [doc_prematch(h, sts[h["_cls"]]) for h in hs]
     if all(v is not None for v in object_level):
         nobody = not any(object_level)
         rec.count("cycle: matched by no handler", nobody)
-        if carried:
-            # by design: the re-sent transformation is the retry of a write that a legitimately invoked
-            # handler of an earlier cycle produced (Lean: stealth_carried_witness); not judged
-            rec.count("cycle: matched by no handler, carried patch re-sent (not judged)", nobody)
-        if nobody and not case["own_finalizer"] and not carried:
-            if patch_dict or fns or called or obs["spawn"] or any(a["patch"] or a["fns"] for a in obs["applied"]):
-                dev_ok = next((s for dev, s in DEVIATIONS
-                               if any(doc_prematch(h, sts[h["_cls"]], dev) for h in hs)), None)
-                rec.oracle_fail(f"an object matched by no handler was touched: patch={patch_dict} fns={fns} invoked={called}",
-                                replay, dev_ok or {"site": "processing.process_resource_causes", "shape": "unmatched object touched"})
+        if nobody and not own_fin:
+            # STRICT: "Objects matched by no handler are left untouched: no annotations, no finalizer."
+            written = bool(patch_dict or fns or touched or any(a["patch"] or a["fns"] for a in obs["applied"]))
+            if written or called or obs["spawn"]:
+                only_carried = fns == ["carried_user_fn"] and not touched and not called and not obs["spawn"] and \
+                    set(json.dumps(patch_dict)) <= set(json.dumps({"metadata": {"annotations": {"kopf.zalando.org/touch-dummy": None}}}))
+                only_touch = touched and not fns and not patch_dict and not called and not obs["spawn"] and lingering
+                sig = FINDING_CARRIED if only_carried else FINDING_TOUCH if only_touch else next(
+                    (s for dev, s in DEVIATIONS if any(doc_prematch(h, sts[h["_cls"]], dev) for h in hs)), None)
+                rec.oracle_fail(f"an object matched by no handler was touched: patch={patch_dict} fns={fns} touch-dummy={touched} invoked={called}",
+                                replay, sig or {"site": "processing.process_resource_causes", "shape": "unmatched object touched"})
     else:
         rec.count("oracle", "undefined (cycle)")
-    rec.nontrivial.add(f"cycle|{len(hs)}|{case['event']}|{int(case['own_finalizer'])}{int(case['marked'])}|"
+    rec.nontrivial.add(f"cycle|{len(hs)}|{step['event']}|{int(own_fin)}{int(step['marked'])}|"
                        f"{'-' if cs.changing_cause is None else cs.changing_cause.reason.value}|{impl['fins']}|"
-                       f"{impl['handle'] is not None}|{len(impl['watch'])}|{len(impl['spawn'])}|c{int(carried)}")
-    # ---- the tie: the model's cycle on the same registry, causes and object flags
+                       f"{impl['handle'] is not None}|{len(impl['watch'])}|{len(impl['spawn'])}|c{int(carried)}l{int(lingering)}"
+                       f"d{int(hdelays)}r{int(bool(pre_resumed))}t{int(touched)}")
+    # ---- the tie: the model's cycle on the same registry, causes, object flags and in-memory residues
     def side(cls: str) -> list:
         return [lean_h(h) for h in hs if h["_cls"] == cls]
-    o = {"deleted": case["event"] == "DELETED", "ongoing": case["marked"], "blocked": case["own_finalizer"],
-         "nodelays": not obs["delays"], "carried": carried}
+    o = {"deleted": step["event"] == "DELETED", "ongoing": bool(step["marked"]), "blocked": own_fin, "carried": carried,
+         "lingering": lingering, "hdelays": hdelays, "resumed": pre_resumed}
     driver_reqs.append(["C15.cycle", side("watching"), side("spawning"), side("changing"),
-                        lean_c(sts["watching"]), lean_c(sts["spawning"]), lean_c(sts["changing"]), o, case["stopped"]])
+                        lean_c(sts["watching"]), lean_c(sts["spawning"]), lean_c(sts["changing"]), o, pre_stopped])
     pending.append(("cycle effects", impl, replay))
+    # the own finalizer of the next event: what kopf itself queued now
+    for f in impl["fins"]:
+        own_fin = f == "fin+"
+    return own_fin
 
 
 def model_effects(out: Any) -> Any:
     """the model's effect list → the same abstraction as the observed one"""
     if not (isinstance(out, list) and out and out[0] == "ok"):
         return out
-    r: dict[str, Any] = {"carried": False, "watch": [], "spawn": [], "fins": [], "handle": None}
+    r: dict[str, Any] = {"carried": False, "watch": [], "spawn": [], "fins": [], "handle": None, "touch": False}
     for e in out[1]:
         if e[0] == "carried":
             r["carried"] = True
@@ -1749,6 +1980,8 @@ def model_effects(out: Any) -> Any:
             r["fins"].append(e[0])
         elif e[0] == "handle":
             r["handle"] = sorted(e[1])
+        elif e[0] == "touch":
+            r["touch"] = True
     return r
 
 
@@ -1930,6 +2163,9 @@ def run(ctx: Ctx) -> None:
     async def cycles() -> None:
         for _ in range(ctx.budget(2500, 20000)):
             await run_cycle_case(env, rec, random_cycle_case(rng), reqs, pending)
+        # consecutive events on the same in-memory records with kopf's REAL daemon spawning/stopping
+        for _ in range(ctx.budget(60, 600)):
+            await run_cycle_case(env, rec, random_sequence_case(rng), reqs, pending)
     asyncio.run(cycles())
     flush(rec, drv, reqs, pending)
     rec.merge_into(ctx)
@@ -1974,6 +2210,8 @@ def search(ctx: Ctx, broken: list) -> None:
         async def cycles() -> None:
             for _ in range(12000):
                 await run_cycle_case(env, rec, random_cycle_case(rng), reqs, pending)
+            for _ in range(300):
+                await run_cycle_case(env, rec, random_sequence_case(rng), reqs, pending)
         asyncio.run(cycles())
     rec.tie.clear()
     rec.merge_into(ctx)
